@@ -3185,6 +3185,11 @@ class KmipEngine(object):
                 "No data to be MACed"
             )
 
+        if not hasattr(managed_object, 'state'):
+            raise exceptions.PermissionDenied(
+                "The object has no state and cannot be used for MACing."
+            )
+
         if managed_object.state != enums.State.ACTIVE:
             raise exceptions.PermissionDenied(
                 "Object is not in a state that can be used for MACing."
